@@ -70,6 +70,59 @@ def complete(fdir, expect):
     return all(os.path.exists(os.path.join(fdir, c + '.json')) for c in expect)
 
 
+def sha_file(p):
+    try:
+        with open(p, 'rb') as fh:
+            return hashlib.sha256(fh.read()).hexdigest()
+    except OSError:
+        return None
+
+
+def head_info(fp):
+    """(crate, nonce, srcs) from the head of a fact file without parsing all of it"""
+    with open(fp) as fh:
+        head = fh.read(1 << 16)
+    i = head.find('"fns":')
+    if i < 0:
+        with open(fp) as fh:
+            d = json.load(fh)
+        return d['crate'], d['nonce'], d.get('srcs', [])
+    d = json.loads(head[:i].rstrip().rstrip(',') + '}')
+    return d['crate'], d['nonce'], d.get('srcs', [])
+
+
+def member_fingerprints(target, only=None):
+    out = []
+    for fp in glob.glob(os.path.join(target, 'debug', '.fingerprint', '*')):
+        base = os.path.basename(fp)
+        name = base.rsplit('-', 1)[0].replace('-', '_')
+        if name.startswith('fil_actor') or name in ('fil_builtin_actors_state', 'vm_api', 'test_vm', 'export_macro',
+                                                    'fil_actors_integration_tests', 'fil_builtin_actors_bundle'):
+            if only is None or name in only:
+                out.append(fp)
+    return out
+
+
+def run_cargo(cfg, target, latest, nonce):
+    env = dict(os.environ)
+    env.update({
+        'LD_LIBRARY_PATH': sysroot() + '/lib' + (':' + env['LD_LIBRARY_PATH'] if env.get('LD_LIBRARY_PATH') else ''),
+        'RUSTFLAGS': '-Zmir-opt-level=0 -Awarnings',
+        'RUSTC_WORKSPACE_WRAPPER': DRIVER,
+        'BA_FACTS_DIR': latest,
+        'BA_FACTS_NONCE': nonce,
+        'CARGO_TARGET_DIR': target,
+        'CARGO_NET_OFFLINE': 'true',
+    })
+    env.pop('RUSTC_WRAPPER', None)
+    cmd = ['cargo', '+nightly', 'check', '--offline', '--workspace', '--lib', '-q']
+    for x in cfg['exclude']:
+        cmd += ['--exclude', x]
+    if cfg['features']:
+        cmd += ['--features', ','.join(cfg['features'])]
+    return subprocess.run(cmd, cwd=REPO, env=env, stdout=subprocess.PIPE, stderr=subprocess.STDOUT, text=True)
+
+
 def main():
     cfgname = sys.argv[1] if len(sys.argv) > 1 else 'quick'
     cfg = CONFIGS[cfgname]
@@ -88,60 +141,72 @@ def main():
         if not os.path.exists(DRIVER):
             print('extract: driver not built (%s); run setup_cmd' % DRIVER)
             return 2
+        target = os.path.join(CACHE, 'target-%s' % cfgname)
+        latest = os.path.join(target, 'ba-latest')
+        os.makedirs(latest, exist_ok=True)
+        # Cargo skips the wrapper for crates it considers fresh. That is sound only while the fact file of such a crate
+        # was produced by *this* driver from *these* sources; both are verified here, independently of cargo's mtimes.
+        drv = sha_file(DRIVER)
+        stamp = os.path.join(latest, '.driver')
+        old = open(stamp).read() if os.path.exists(stamp) else ''
+        if old != drv or os.environ.get('BA_FORCE_EXTRACT') == '1':
+            for fp in member_fingerprints(target):
+                shutil.rmtree(fp, ignore_errors=True)
+            for f in glob.glob(os.path.join(latest, '*')):
+                os.remove(f)
+            with open(stamp, 'w') as fh:
+                fh.write(drv)
+        nonce = '%s-%d' % (th, int(time.time() * 1000))
+        ran = []
+        for attempt in (1, 2):
+            p = run_cargo(cfg, target, latest, nonce)
+            if p.returncode != 0:
+                print(p.stdout[-6000:])
+                print('extract: cargo check failed (exit %d): the current tree does not compile in configuration %s' % (p.returncode, cfgname))
+                return 2
+            stale = []
+            for c in cfg['expect']:
+                fp = os.path.join(latest, c + '.json')
+                side = os.path.join(latest, c + '.srcs')
+                if not os.path.exists(fp):
+                    stale.append(c)
+                    continue
+                _cr, n, srcs = head_info(fp)
+                cur = {sp: sha_file(os.path.join(REPO, sp) if not os.path.isabs(sp) else sp) for sp in srcs}
+                if n == nonce:
+                    with open(side, 'w') as fh:
+                        json.dump(cur, fh)
+                    if c not in ran:
+                        ran.append(c)
+                else:
+                    try:
+                        rec = json.load(open(side))
+                    except Exception:
+                        rec = None
+                    if rec != cur or not srcs:
+                        stale.append(c)
+            if not stale:
+                break
+            if attempt == 2:
+                print('extract: no fresh fact file for crates: %s' % stale)
+                return 2
+            for fp in member_fingerprints(target, only=set(stale)):
+                shutil.rmtree(fp, ignore_errors=True)
         shutil.rmtree(fdir, ignore_errors=True)
         os.makedirs(fdir)
-        target = os.path.join(CACHE, 'target-%s' % cfgname)
-        os.makedirs(target, exist_ok=True)
-        # force the wrapper to run for every workspace member
-        for fp in glob.glob(os.path.join(target, 'debug', '.fingerprint', '*')):
-            base = os.path.basename(fp)
-            name = base.rsplit('-', 1)[0].replace('-', '_')
-            if name.startswith('fil_actor') or name in ('fil_builtin_actors_state', 'vm_api', 'test_vm', 'export_macro',
-                                                        'fil_actors_integration_tests', 'fil_builtin_actors_bundle'):
-                shutil.rmtree(fp, ignore_errors=True)
-        nonce = '%s-%d' % (th, int(time.time() * 1000))
-        env = dict(os.environ)
-        env.update({
-            'LD_LIBRARY_PATH': sysroot() + '/lib' + (':' + env['LD_LIBRARY_PATH'] if env.get('LD_LIBRARY_PATH') else ''),
-            'RUSTFLAGS': '-Zmir-opt-level=0 -Awarnings',
-            'RUSTC_WORKSPACE_WRAPPER': DRIVER,
-            'BA_FACTS_DIR': fdir,
-            'BA_FACTS_NONCE': nonce,
-            'CARGO_TARGET_DIR': target,
-            'CARGO_NET_OFFLINE': 'true',
-        })
-        env.pop('RUSTC_WRAPPER', None)
-        cmd = ['cargo', '+nightly', 'check', '--offline', '--workspace', '--lib', '-q']
-        for x in cfg['exclude']:
-            cmd += ['--exclude', x]
-        if cfg['features']:
-            cmd += ['--features', ','.join(cfg['features'])]
-        p = subprocess.run(cmd, cwd=REPO, env=env, stdout=subprocess.PIPE, stderr=subprocess.STDOUT, text=True)
-        if p.returncode != 0:
-            print(p.stdout[-6000:])
-            print('extract: cargo check failed (exit %d): the current tree does not compile in configuration %s' % (p.returncode, cfgname))
-            return 2
-        missing = []
-        for c in cfg['expect']:
-            fp = os.path.join(fdir, c + '.json')
-            if not os.path.exists(fp):
-                missing.append(c)
-                continue
-            with open(fp) as fh:
-                head = fh.read(400)
-            if nonce not in head:
-                missing.append(c + '(stale nonce)')
-        if missing:
-            print('extract: no fresh fact file for crates: %s' % missing)
-            return 2
+        for f in glob.glob(os.path.join(latest, '*.json')):
+            try:
+                os.link(f, os.path.join(fdir, os.path.basename(f)))
+            except OSError:
+                shutil.copy(f, os.path.join(fdir, os.path.basename(f)))
+        # the driver writes via rename, so a later extraction never modifies a hard-linked older fact file
         with open(os.path.join(fdir, '.complete'), 'w') as fh:
             fh.write(nonce)
-        # keep the cache small: drop fact dirs other than the 4 most recent
         ds = sorted(glob.glob(os.path.join(CACHE, 'facts', '*-*')), key=os.path.getmtime)
-        for d in ds[:-6]:
+        for d in ds[:-8]:
             shutil.rmtree(d, ignore_errors=True)
         dt = time.time() - t0
-        print('extract: %s config=%s tree=%s files=%d in %.1fs' % (fdir, cfgname, th, nfiles, dt))
+        print('extract: %s config=%s tree=%s files=%d in %.1fs (re-analysed %d crate(s): %s)' % (fdir, cfgname, th, nfiles, dt, len(ran), ','.join(x.replace('fil_actor_', '') for x in ran)))
         print('BA_EXTRACT_S=%.1f' % dt)
         print(fdir)
         return 0
